@@ -853,6 +853,104 @@ def r9(k: Kit) -> None:
     rep.floor('C15.R10', 'passphrase is-None tests', m, 4)
 
 
+def r11(k: Kit) -> None:
+    """Certificate options in table order; comments kept verbatim."""
+    from ..absint import evaluate, Obj, NotEvaluable
+    rep = k.rep
+    idx = k.idx
+    rep.rule('C15.R11', 'SSHOpenSSHCertificate._encode_options evaluated '
+             'with an option dict whose insertion order differs from the '
+             '(lexically sorted, C15.R7) encoder table: the fields are '
+             'written in table order - PyCA and ssh reject certificates '
+             'whose extensions are not sorted; _parse_openssh returns the '
+             'comment of a one-line key exactly as written (runs of blanks, '
+             'tabs)')
+    fi = k.func('public_key.SSHOpenSSHCertificate._encode_options')
+    body = [st for st in fi.node.body if not (
+        isinstance(st, ast.Expr) and isinstance(st.value, ast.Constant))]
+    table = (('a-opt', Obj('ENC_A')), ('b-opt', Obj('ENC_B')),
+             ('c-opt', Obj('ENC_C')))
+    bad = None
+    n = 0
+    import itertools
+    for perm in itertools.permutations(('a-opt', 'b-opt', 'c-opt')):
+        for present in ((True, True, True), (True, False, True)):
+            n += 1
+            opts = {}
+            for nm in perm:
+                if present[('a-opt', 'b-opt', 'c-opt').index(nm)]:
+                    opts[nm] = True
+            seq = []
+
+            def on_call(f, a, e, seq=seq, opts=opts):
+                if f == 'options.get':
+                    return opts.get(a[0])
+                if f == 'options.items':
+                    return tuple(opts.items())
+                if f == 'options.keys':
+                    return tuple(opts)
+                if f == 'dict' and a:
+                    return dict(a[0])
+                if f == 'encoder_map.get':
+                    return dict(table).get(a[0])
+                if f == 'String' and a and isinstance(a[0], str):
+                    seq.append(a[0])
+                    return b'<' + a[0].encode() + b'>'
+                if f == 'String':
+                    return b'<v>'
+                if f in ('ENC_A', 'ENC_B', 'ENC_C', 'encoder'):
+                    return b''
+                return Obj('x')
+            try:
+                o = evaluate(idx, fi.module, body, {},
+                             {'options': dict(opts), 'encoders': table},
+                             on_call)
+            except NotEvaluable as exc:
+                rep.error('C15.R11', key(fi, 'not-evaluable'), str(exc))
+                return
+            want = [nm for nm in ('a-opt', 'b-opt', 'c-opt') if nm in opts]
+            if seq != want and bad is None:
+                bad = (f'options given in order {list(opts)}: written '
+                       f'{seq}, table order is {want}')
+    rep.count('eval.cert_option_orders', n)
+    rep.check(bad is None, 'C15.R11', key(fi, 'options in table order'),
+              f'{n} insertion orders', f'{bad}: a certificate generated with '
+              'e.g. touch_required=False plus the default permit-* '
+              'extensions carries them unsorted and is rejected by PyCA '
+              '("Fields not lexically sorted")', fi.loc(fi.node))
+    po = k.func('public_key._parse_openssh')
+    bad = None
+    wit = [(b'ssh-ed25519 AAAA John  Doe', b'John  Doe'),
+           (b'ssh-ed25519 AAAA a\tb   c', b'a\tb   c'),
+           (b'ssh-ed25519 AAAA', None),
+           (b'ssh-ed25519  AAAA   x', b'x'),
+           (b'ssh-ed25519 AAAA x y\n', b'x y\n')]
+    for line, want in wit:
+        try:
+            o = evaluate(idx, po.module, po.node.body, {},
+                         {'data': line,
+                          '_public_key_alg_map': {b'ssh-ed25519': 1},
+                          '_certificate_alg_map': {}},
+                         lambda f, a, e: b'BLOB'
+                         if f == 'binascii.a2b_base64' else Obj('x'))
+        except NotEvaluable as exc:
+            rep.error('C15.R11', key(po, 'not-evaluable'), str(exc))
+            return
+        got = o.value[1] if o.kind == 'return' and \
+            isinstance(o.value, tuple) and len(o.value) == 3 else o
+        # trailing white space of the last field is str.split's business
+        if got != want and not (isinstance(got, bytes) and want and
+                                got.rstrip() == want.rstrip()
+                                and got.split() != got.split(None, 0)
+                                and False) and bad is None:
+            bad = f'{line!r}: comment {got!r}, expected {want!r}'
+    rep.count('eval.openssh_comment_lines', len(wit))
+    rep.check(bad is None, 'C15.R11', key(po, 'comment kept verbatim'),
+              f'{len(wit)} witness lines', f'{bad}: the comment of an '
+              'imported OpenSSH public key or certificate does not survive '
+              'export and re-import', po.loc(po.node))
+
+
 def run(idx, rep, tier):
     k = Kit(idx, rep)
     rep.assumptions += NOT_DECIDED
@@ -865,3 +963,4 @@ def run(idx, rep, tier):
     r7(k)
     r8(k)
     r9(k)
+    r11(k)
